@@ -129,7 +129,9 @@ impl GenericCommand for DistinctCommand {
     fn run(&self, out: &mut Output, matches: &ArgMatches, config: &Config) -> Result<()> {
         let stderr = io::stderr();
         let mut stderr_lock = stderr.lock();
-        let brush_stderr = Brush::from_environment(Stream::Stderr)?;
+        // The color mode has been decided in `main` (flags first). A PASTEL_COLOR_MODE value that
+        // is not consulted there must not make this command fail: only use it to color STDERR.
+        let brush_stderr = Brush::from_environment(Stream::Stderr).unwrap_or_default();
         let verbose_output = matches.is_present("verbose");
 
         let count = matches.value_of("number").expect("required argument");
